@@ -1250,10 +1250,6 @@ pub fn generate(seed: u64, tier: Tier, p: &Profile) -> Scenario {
         None
     };
     let change = ChangeSpec { addr: change_addr, datum, script_ref: if pm(&mut g.r, p.out_features / 3) { Some(g.r.below(g.w.scripts.len() as u64) as u16) } else { None } };
-    if failing_pct_helper {
-        ops.push(Op::FeeExact(*g.r.pick(&[300_000u64, 1_000_000, 2_000_000])));
-        ops.push(Op::SelectChangeCollateral(strat, off.clone(), change.clone(), 150));
-    }
     match (helper_pct, g.r.below(4)) {
         (Some(pct), _) => ops.push(Op::SelectChangeCollateral(strat, off.clone(), change.clone(), pct)),
         (None, 0) => {
@@ -1300,6 +1296,10 @@ pub fn generate(seed: u64, tier: Tier, p: &Profile) -> Scenario {
             ops.push(Op::SelectAndChange(strat, off[k..].to_vec(), change.clone()));
         }
         _ => ops.push(Op::SelectAndChange(strat, off.clone(), change.clone())),
+    }
+    if failing_pct_helper {
+        // the transaction is balanced and its fee fixed: the percentage helper has to refuse, and leave neither field set
+        ops.push(Op::SelectChangeCollateral(strat, vec![], change.clone(), 150));
     }
     if pm(&mut g.r, p.post_balance_noise) {
         ops.push(match g.r.below(3) {
